@@ -72,7 +72,7 @@ def props_of(m):
         ps.add('C13')
     query = base in ('read', 'contains', 'read_absent', 'contains_absent', 'all_wm', 'read_all', 'read_with',
                      'all_wm_absent')
-    if action in RESTART and (query or base == 'counts.next_blob_id' or base in ('error', 'panic')):
+    if action in RESTART and (query or (base.startswith('counts.') and base != 'counts.disk_used') or base in ('error', 'panic')):
         ps.add('C03')
     lifecycle = action not in DATA and action not in RESTART
     if lifecycle and (query or base.startswith('ret.')):
@@ -153,7 +153,7 @@ class StoreEngine:
     ONLY = {
         'C01': 'read,contains,ret.,panic,error',
         'C02': 'all_wm,read_all,read_with,ret.,counts.records,panic,error',
-        'C03': 'read,contains,all_wm,read_with,counts.next_blob_id,ret.,panic,error',
+        'C03': 'read,contains,all_wm,read_with,counts.next_blob_id,counts.records,counts.blobs,counts.detailed,counts.active,counts.corrupted,ret.,panic,error',
         'C04': 'read,contains,all_wm,read_with,ret.,panic,error',
         'C07': 'blob_bytes,ret.,panic,error',
         'C10': 'check_filter,filter,ret.,panic,error',
